@@ -166,7 +166,15 @@ def gen_history(rnd: random.Random, nsteps: int, profile: str = 'mixed', big: bo
         elif k == 'repack':
             ops.append({'op': 'repack', 'mode': rnd.choice(MODES)})
         elif k == 'delete':
-            ops.append({'op': 'delete', 'idx': [rnd.randrange(n) for _ in range(rnd.randint(1, 4))]})
+            if profile in ('delete', 'modes', 'mixed') and rnd.random() < 0.2:
+                # a pack whose only live objects are zero-length: pack the empty object (alone or with neighbours), delete every
+                # non-empty object, repack - the pack file must survive with its live (empty) entry readable
+                ops.append({'op': 'topack', 'idx': [pool.index(b'')] + [rnd.randrange(n) for _ in range(rnd.randint(0, 2))], 'compress': rnd.random() < 0.5,
+                            'no_holes': False, 'read_twice': True})
+                ops.append({'op': 'delete', 'idx': [], 'all_nonempty': True})
+                ops.append({'op': 'repack', 'mode': rnd.choice(MODES)})
+            else:
+                ops.append({'op': 'delete', 'idx': [rnd.randrange(n) for _ in range(rnd.randint(1, 4))]})
         elif k == 'loosen':
             ops.append({'op': 'loosen', 'i': rnd.randrange(n)})
         elif k == 'imp':
@@ -310,6 +318,8 @@ class Runner:
             c.repack(compress_mode=CompressMode(op['mode']))
         elif k == 'delete':
             ks = [self.key(i) for i in op['idx']]
+            if op.get('all_nonempty'):
+                ks = sorted(x for x, b in self.model.items() if b)
             if os.listdir(os.path.join(self.d, 'duplicates')):
                 # C11 speaks of deleting a SET of keys; a key repeated in the list while stray duplicates/<key>.* files exist (which only the
                 # harness plants - the library creates them on Windows only) makes delete_objects try to remove the same stray file twice.
@@ -647,6 +657,11 @@ def dataclass_items(v):
     return [(f.name, getattr(v, f.name)) for f in dataclasses.fields(v)]
 
 
+EXC_BY_OP = {'delete': {'C11'}, 'repack': {'C11', 'C10'}, 'import': {'C14'}, 'src_add': {'C14'}, 'src_pack': {'C14'}, 'topack': {'C09', 'C01'},
+             'topack_stream': {'C09', 'C01'}, 'pack': {'C10'}, 'add': {'C01', 'C09'}, 'adds': {'C01', 'C09'}, 'loosen': {'C10'}}
+EXC_BY_PROFILE = {'norepack': {'C13'}, 'dedup': {'C09'}, 'delete': {'C11'}, 'modes': {'C10'}, 'import': {'C14'}}
+
+
 def run_case(case: dict, checks='full') -> tuple[set, str, int] | None:
     """returns None if the history passes, else (tags, message, step)"""
     root = common.scratch_root()
@@ -656,10 +671,14 @@ def run_case(case: dict, checks='full') -> tuple[set, str, int] | None:
         return None
     except Fail as f:
         return (f.tags, f.msg, getattr(r, 'step', -1), getattr(f, 'all', [(sorted(f.tags), f.msg)]))
-    except Exception as e:  # an unexpected exception of the library is a deviation from the dict, attributed to C02
+    except Exception as e:  # an unexpected exception of the library is a deviation from the dict: attributed to C02 and to the
+        # property the failing step / the profile of the history is about (a repack that makes reads raise is a C11/C10 matter too)
         import traceback
         m = f'{type(e).__name__}: {e} | {traceback.format_exc()[-600:]}'
-        return ({'C02', 'EXC'}, m, getattr(r, 'step', -1), [(['C02', 'EXC'], m)])
+        step = getattr(r, 'step', -1)
+        opk = case['ops'][step]['op'] if 0 <= step < len(case.get('ops', [])) else None
+        tags = {'C02', 'EXC'} | EXC_BY_OP.get(opk, set()) | EXC_BY_PROFILE.get(case.get('profile'), set())
+        return (tags, m, step, [(sorted(tags), m)])
     finally:
         r.close()
         shutil.rmtree(root, ignore_errors=True)
